@@ -129,7 +129,7 @@ pub fn record(mode: &str, seed: u64, n: usize, out: &mut Out) {
             let mut last = None;
             for _ in 0..nm {
                 let m = gen::message(&mut r, &MsgOpts { storage: Some(sh), big: 10, max_args: 2 });
-                stream.extend(m.as_bytes());
+                stream.extend(gen::ser(&m));
                 last = Some(m);
             }
             let cfg = crate::slice::random_filter(&mut r, last.as_ref());
@@ -177,7 +177,7 @@ pub fn record(mode: &str, seed: u64, n: usize, out: &mut Out) {
             }
             if m.header.ecu_id.is_some() { m.header.ecu_id = Some(r.pick(&pool).to_string()); }
             // the id changes do not change any length
-            stream.extend(m.as_bytes());
+            stream.extend(gen::ser(&m));
             bounds.push(stream.len());
         }
         let c1 = r.below(nm as u64 + 1) as usize;
